@@ -183,6 +183,7 @@ type Config struct {
 	MapBase       string
 	YieldOnMake   bool
 	YieldOnMap    bool
+	KeepGlobals   bool
 	OnQuiescent   func()
 	ClockAdvance  bool
 	KeepTrace     bool
